@@ -51,11 +51,28 @@ impl Machine for Rv {
 
     fn exec(&mut self, code: &[Code]) -> Exit {
         let mut labels = HashMap::new();
+        let mut addr_of: Vec<u64> = Vec::with_capacity(code.len());
+        let mut index_of: HashMap<u64, usize> = HashMap::new();
+        let mut a = crate::x86::CODE_BASE;
         for (i, c) in code.iter().enumerate() {
-            if let Code::LAB(l) = c {
-                labels.insert(l.clone(), i);
+            addr_of.push(a);
+            match c {
+                Code::LAB(l) => {
+                    labels.insert(l.clone(), i);
+                }
+                Code::COMMENT(_) => {}
+                _ => {
+                    index_of.insert(a, i);
+                    a += 4;
+                }
             }
         }
+        let label_address = |l: &str| -> u64 {
+            match labels.get(l) {
+                Some(&i) => addr_of[i],
+                None => label_addr(l),
+            }
+        };
         let mut pc = 0usize;
         let mut steps = 0;
         while pc < code.len() {
@@ -119,9 +136,13 @@ impl Machine for Rv {
                     if d.0 != 0 {
                         return Exit::Fault("JALR with link register is not modelled".into());
                     }
-                    return Exit::Reg(self.rd(*a).wrapping_add(*i as u64));
+                    let t = self.rd(*a).wrapping_add(*i as u64);
+                    match index_of.get(&t) {
+                        Some(&ix) => pc = ix,
+                        None => return Exit::Reg(t),
+                    }
                 }
-                LA(d, l) => self.wr(*d, label_addr(l)),
+                LA(d, l) => self.wr(*d, label_address(l)),
                 LI(d, i) => self.wr(*d, *i as u64),
                 MV(d, a) => {
                     let v = self.rd(*a);
